@@ -38,6 +38,27 @@
     active visitor that does not raise here, `using namespace n1 :: … :: nk ;` delivers exactly
     ONE callback — `on_using_namespace [n1, …, nk]` for the innermost open block — consumes
     exactly the declaration and changes nothing else but the block's recorded location.
+  * `C01_toplevel_using_declaration` (`Theorems/UsingDeclForm.lean`, `PqName.lean`, `TopLevel.lean`): the
+    first form through the recursive type/name core — `using n1 :: … :: nk ;` (identifiers, any
+    length, any layout between the tokens) through one iteration of the parse loop delivers
+    exactly ONE `on_using_declaration` with the written qualified name, the access level in
+    force (the innermost class's, none outside a class) and the doc text found; nothing else
+    changes but the block's recorded location (and the debug log in verbose mode).
+  * `C01_toplevel_variable` (`Theorems/VarDecl.lean`, `TypeName.lean`, `FieldForm.lean`, `TopLevel.lean`):
+    a variable declaration through the whole parse loop and the recursive core —
+    `T ptr-ops x ;` with `T` a qualified name of identifiers of any length, `ptr-ops` empty or any
+    sequence of `*` / `const` / `volatile` starting with `*`, `x` an identifier, any comments and
+    blank lines between the tokens.  Outside a class, with an active visitor that does not raise
+    here, the iteration delivers exactly ONE `on_variable` for the innermost open block with the
+    name `x`, the type the declarator denotes (`applyPtrOps`, characterised by `C02_pointer_level`),
+    no value, and the doc text found before the declaration or else behind it; it consumes exactly
+    the declaration and hands no doc text on.
+  * `C01_declaration_statement` (`Theorems/VarDecls.lean`): statements with ANY NUMBER of declarators —
+    `d1 , d2 , … , dn ;` after the type, every `di` being `ptr-ops x`: outside a class, with an active
+    visitor that never raises, the declarator loop delivers exactly one `on_variable` per declarator,
+    in order, each with its own name and the type ITS chain denotes over the shared base type
+    (no pointer level, qualifier or name leaks from one declarator into the next), all to the same
+    block, and consumes exactly the statement.
 -/
 import CxxModel.Tables
 import CxxModel.Props.C04
@@ -49,6 +70,7 @@ import CxxModel.Theorems.NsForm
 import CxxModel.Theorems.UsingDecl
 import CxxModel.GenCfg
 import CxxModel.Theorems.TopLevel
+import CxxModel.Theorems.VarDecls
 namespace Cxx
 
 theorem C01_dispatch : Gen.dispatchTable.length = 20 ∧ Gen.dispatchTable.lookup ";" = some "<lambda:Constant(None)>" ∧
@@ -192,6 +214,84 @@ theorem C01_toplevel_using_namespace (env : Env) (hc : env.cfg = genLexCfg) (F :
       ev.parentId = rest.head?.map (·.id) ∧
       w2.delivered = w.delivered + 1 ∧ w2.anon = w.anon ∧ w2.muted = false :=
   toplevel_using_namespace env (by rw [hc]; exact gen_rules_progress) F c w kwU kwN first pairs semi b' blk rest hstack hk hmu hfa hU hN hf hall hsemi hy hF
+
+end
+
+section
+open P
+
+theorem C01_toplevel_using_declaration (env : Env) (hc : env.cfg = genLexCfg) (F D : Nat) (w : World)
+    (kwU first : Tok) (pairs : List (Tok × Tok)) (semi : Tok) (b' : Buf)
+    (blk : Block) (rest : List Block) (hstack : w.stack = blk :: rest)
+    (hmu : w.muted = false) (hfa : ¬ env.faultAt = some w.delivered)
+    (hU : kwU.type = "using") (hf : first.type = "NAME") (hfv : plainVal first.value = true)
+    (hfc : Gen.nameCompoundStart.contains first.value = false)
+    (hall : ∀ p ∈ pairs, p.1.type = "DBL_COLON" ∧ p.2.type = "NAME" ∧ plainVal p.2.value = true) (hsemi : semi.type = ";")
+    (hy : Yields env.cfg w.buf (kwU :: ((first :: pairs.flatMap (fun p => [p.1, p.2])) ++ [semi])) b')
+    (hF : pairs.length + 1 ≤ F) :
+    ∃ (d : Option String) (bD : Buf) (w2 : World) (ct : CTok) (ev : Event),
+      getDoxygen env.cfg env.mcRe w.buf = .ok (d, bD) ∧
+      interp env (mainBody F (core F (D + 1)) none) w = (w2, .ok (.inl none)) ∧ w2.buf = b' ∧
+      ct.value = kwU.value ∧
+      w2.stack = { blk with loc := .tok ct.sidx } :: rest ∧ w2.events = w.events ++ [ev] ∧
+      ev.kind = .item (.usingDeclaration {
+        typename := .mk (.name first.value none :: pairs.map (fun p => .name p.2.value none)) none false,
+        access := if blk.hdr.kind = .cls then blk.access else none, doxygen := d }) ∧
+      ev.stateId = blk.id ∧ ev.parentId = rest.head?.map (·.id) ∧
+      w2.delivered = w.delivered + 1 ∧ w2.anon = w.anon ∧ w2.muted = false ∧ w2.nextId = w.nextId :=
+  toplevel_using_declaration env (by rw [hc]; exact gen_rules_progress) F D w kwU first pairs semi b' blk rest hstack hmu hfa hU hf hfv hfc hall hsemi hy hF
+
+end
+
+section
+open P
+
+theorem C01_toplevel_variable (env : Env) (hc : env.cfg = genLexCfg) (F D : Nat) (w : World)
+    (first : Tok) (pairs : List (Tok × Tok)) (ops : List Tok) (x semi : Tok) (d1 : DType) (b1 b0 bmid bx b' : Buf)
+    (blk : Block) (rest : List Block) (hstack : w.stack = blk :: rest) (hk : blk.hdr.kind ≠ .cls)
+    (hmu : w.muted = false) (hfa : ¬ env.faultAt = some w.delivered)
+    (htok : tokenEofOk env.cfg w.buf = .ok (some first, b1))
+    (hty : first.type = "NAME") (htv : identVal first.value = true)
+    (hall : ∀ p ∈ pairs, p.1.type = "DBL_COLON" ∧ p.2.type = "NAME" ∧ plainVal p.2.value = true)
+    (hy0 : Yields env.cfg b1 (pairs.flatMap (fun p => [p.1, p.2])) b0)
+    (hops : opsHeadOk ops = true) (hopsv : ∀ o ∈ ops, o.value ≠ "auto")
+    (hy : Yields env.cfg b0 ops bmid)
+    (ha : applyPtrOps (.type (.mk (.name first.value none :: pairs.map (fun p => .name p.2.value none)) none false) false false)
+      (ops.map (·.type)) = some d1)
+    (htx : tokenEofOk env.cfg bmid = .ok (some x, bx)) (hx : x.type = "NAME") (hxv : identVal x.value = true)
+    (hsemi : tokenEofOk env.cfg bx = .ok (some semi, b')) (hs : semi.type = ";")
+    (hF : pairs.length + ops.length + 2 ≤ F) :
+    ∃ (d : Option String) (bD : Buf) (w7 : World) (ct : CTok) (dox : Option String) (ev : Event),
+      getDoxygen env.cfg env.mcRe w.buf = .ok (d, bD) ∧
+      interp env (mainBody F (core F (D + 1 + 1)) none) w = (w7, .ok (.inl none)) ∧
+      SigEq b' w7.buf ∧ ct.value = first.value ∧ w7.stack = { blk with loc := .tok ct.sidx } :: rest ∧
+      w7.events = w.events ++ [ev] ∧ ev.kind = .item (.variable (plainVariable x d1 dox)) ∧
+      ev.stateId = blk.id ∧ ev.parentId = rest.head?.map (·.id) ∧ (∀ dd, d = some dd → dox = some dd) ∧
+      w7.delivered = w.delivered + 1 ∧ w7.anon = w.anon ∧ w7.muted = false ∧ w7.nextId = w.nextId :=
+  toplevel_variable env (by rw [hc]; exact gen_rules_progress) F D w first pairs ops x semi d1 b1 b0 bmid bx b' blk rest hstack hk hmu hfa
+    htok hty htv hall hy0 hops hopsv hy ha htx hx hxv hsemi hs hF
+
+end
+
+section
+open P
+
+theorem C01_declaration_statement (env : Env) (hnf : env.faultAt = none) (F D : Nat) (pt : DType) (hpt : isFnType pt = false)
+    (blkId : Nat) (hdr : BlockHdr) (hk : hdr.kind ≠ .cls) (rest : List Block) :
+    ∀ (ds : List (Dtor × DType)) (last : Dtor × DType) (loc : LocRef) (dox : Option String) (w : World) (b' : Buf) (n : Nat)
+      (blk : Block),
+    blk.id = blkId → blk.hdr = hdr → w.stack = blk :: rest → w.muted = false →
+    (∀ p ∈ ds, p.1.OK pt p.2 ∧ p.1.sep.type = "," ∧ p.1.ops.length + 1 ≤ F) →
+    last.1.OK pt last.2 → last.1.sep.type = ";" → last.1.ops.length + 1 ≤ F →
+    Yields env.cfg w.buf (ds.flatMap (fun p => p.1.toks) ++ last.1.toks) b' → ds.length + 1 ≤ n →
+    ∃ (wF : World) (evs : List Event) (doxs : List (Option String)) (l : LocRef) (blkF : Block),
+      interp env (loopN n (loc, dox) (declaratorBody F (core F (D + 1)) pt {} .none false false)) w = (wF, .ok ()) ∧
+      SigEq b' wF.buf ∧ wF.stack = blkF :: rest ∧ blkF.id = blkId ∧ blkF.hdr = hdr ∧ blkF.loc = l ∧
+      wF.events = w.events ++ evs ∧ doxs.length = ds.length + 1 ∧
+      evs.map (·.kind) = varKinds (ds ++ [last]) doxs ∧ (∀ e ∈ evs, e.stateId = blkId ∧ e.parentId = rest.head?.map (·.id)) ∧
+      (∀ d, dox = some d → doxs.head? = some (some d)) ∧
+      wF.delivered = w.delivered + (ds.length + 1) ∧ wF.anon = w.anon ∧ wF.muted = false ∧ wF.nextId = w.nextId :=
+  declarators_variables env hnf F D pt hpt blkId hdr hk rest
 
 end
 
